@@ -605,6 +605,13 @@ func (x *executor) raw(sc Scenario, lk link, call []byte) {
 		if who, size := above(log, sc.Limit); len(who) > 0 {
 			x.res.violate(sc, "processed-above-limit",
 				fmt.Sprintf("limit %d: %d bytes were sent (declared %d, chunk %d); a %d-byte request was seen by %v", sc.Limit, sc.Size, sc.Declared, sc.Chunk, size, who))
+		} else if sc.Decl == "absent" && sc.Via != "raw-no-length" && sc.Size > sc.Limit && len(log) > 0 {
+			// (an HTTP request with neither Content-Length nor chunked coding has an empty body by definition: the
+			// bytes after its head are not part of it, so raw-no-length is excluded)
+			// one well-formed message without a declared length whose body exceeds the limit: it must be refused
+			// as a whole; a plugin or function that sees a prefix of it has seen the request
+			x.res.violate(sc, "processed-truncated",
+				fmt.Sprintf("limit %d: one %d-byte request without a declared length was sent (chunk %d); it was not refused but cut: %s", sc.Limit, sc.Size, sc.Chunk, showSeen(log)))
 		} else {
 			x.res.Counters["nothing_above_limit_seen"]++
 		}
